@@ -148,6 +148,10 @@ func NewConnection(ctx context.Context, targetURL string, header http.Header, er
 					// no subsequent calls will succeed.
 					return
 				}
+				if clientMsg.Type == websocket.CloseMessage {
+					// The close frame ends the connection (see Close).
+					return
+				}
 			}
 		}
 	}()
@@ -169,12 +173,15 @@ func NewConnection(ctx context.Context, targetURL string, header http.Header, er
 
 // Close closes the websocket client connection.
 func (conn *Connection) Close() {
-	conn.clientMessages <- &message{
+	// The channel itself is never closed: a concurrent SendClientMessage (or a second
+	// Close) would panic. The writing routine exits after forwarding the close frame.
+	select {
+	case conn.clientMessages <- &message{
 		websocket.CloseMessage,
 		websocket.FormatCloseMessage(websocket.CloseNormalClosure, ""),
+	}:
+	case <-conn.done():
 	}
-	// Closing the writing routine.
-	close(conn.clientMessages)
 }
 
 // SendClientMessage sends the given message to the websocket server.
@@ -222,7 +229,13 @@ func (conn *Connection) SendClientMessage(msg interface{}, injectionEnabled bool
 	case <-conn.done():
 		return fmt.Errorf("attempt to send a client message on a closed websocket connection")
 	default:
-		conn.clientMessages <- clientMessage
+	}
+	// Do not block forever (or send after the connection went away) if the writing
+	// routine has stopped consuming messages.
+	select {
+	case <-conn.done():
+		return fmt.Errorf("attempt to send a client message on a closed websocket connection")
+	case conn.clientMessages <- clientMessage:
 	}
 	return nil
 }
